@@ -19,6 +19,10 @@ type RunOpts struct {
 	Formats []Format
 	RCProb  int // percent of cases run with ReadCommitted (where the fetch version allows it)
 	Tag     string
+	// Corpus: hand-picked transactional log shapes (see Crafted), run first under ReadCommitted over every start
+	// offset x every split into up to 3 responses (strided down to CorpusPer cases each) x index order
+	Corpus    []string
+	CorpusPer int
 }
 
 var errCodes = []int16{3, 5, 6, 9, 7, 1, -1, 43} // redispatch class, report-and-redispatch class, out of range
@@ -131,6 +135,9 @@ func pick16(rng *rand.Rand, v []int16) int16 { return v[rng.Intn(len(v))] }
 func fetchSizes(rng *rand.Rand, l Log) (def, max int32, exact bool) {
 	mu := int32(maxUnit(l))
 	def, max, exact = 1<<20, 0, true
+	if mu == 0 {
+		return
+	}
 	switch rng.Intn(5) {
 	case 0: // small default: partial-only responses and doubling
 		def = 16 + rng.Int31n(mu+16)
@@ -139,6 +146,9 @@ func fetchSizes(rng *rand.Rand, l Log) (def, max int32, exact bool) {
 		max = mu + rng.Int31n(64)
 		if def > max {
 			def = max
+		}
+		if def < 1 {
+			def = 1
 		}
 	case 2: // a maximum smaller than some batch: ErrMessageTooLarge + skip (outside c03_parse_exact)
 		if mu > 40 && rng.Intn(3) == 0 {
@@ -162,6 +172,30 @@ func RunAll(o RunOpts) {
 		CaseType: "pcase", MismatchFn: "mismatches_parse", ShardSize: 40}
 	perFormat := o.NParse / len(o.Formats)
 	var scs []ParseScenario
+	for _, spec := range o.Corpus {
+		g := Crafted(rng, spec)
+		gg := g
+		var all []ParseScenario
+		for _, s := range starts(g.Log) {
+			for _, cs := range cutScripts(len(g.Log), 2) {
+				order := 1 + len(all)%2
+				script := []Directive{}
+				for _, k := range cs {
+					script = append(script, Directive{Whole: k, IndexOrder: order})
+				}
+				for len(script) < 4 {
+					script = append(script, Directive{IndexOrder: order})
+				}
+				all = append(all, ParseScenario{Gen: &gg, ReadCommitted: true, FetchDefault: 1 << 20, Start: s, Script: script})
+			}
+		}
+		stride := len(all)/o.CorpusPer + 1
+		for i := rng.Intn(stride); i < len(all); i += stride {
+			sc := all[i]
+			sc.Version = pick16(rng, fetchVersionsFor(FTxn, true))
+			scs = append(scs, sc)
+		}
+	}
 	for _, f := range o.Formats {
 		count := 0
 		// small-scope exhaustive part: every start x every split into fetches (up to 3 cuts) of a small log
